@@ -2,7 +2,7 @@
 From Coq Require Import List Bool ZArith Lia.
 Import ListNotations.
 From Rosed Require Import Base.Res Base.ListX Base.Utf8 Gem.Segment Gem.GString Model.Util Model.Options Model.Editor
-     Check.Common Proofs.Utf8P Proofs.C04P gen.Funcs Inst.GoFuncs.
+     Check.Common Proofs.Utf8P Proofs.C04P gen.Funcs Inst.GoFuncs Inst.GoRt gen.GemChars Inst.GoSel.
 Open Scope Z_scope.
 
 (* For every text that is the UTF-8 encoding of scalar values (i.e. every valid UTF-8
@@ -53,3 +53,10 @@ Print Assumptions C04_utf8_roundtrip.
 Theorem C04_range_to_indexes_is_the_source : forall size s e, 0 <= size -> go_RangeToIndexes size s e = range_to_indexes size s e.
 Proof. exact go_range_to_indexes_eq. Qed.
 Print Assumptions C04_range_to_indexes_is_the_source.
+
+(* CharsFrom and CharsTo as they are in subeditor.go now (translated on every run,
+   gen/GemChars.v) are Chars with the documented second/first argument: the model's selectors *)
+Theorem C04_chars_from_to_are_the_source : forall (C : Classifier) e p,
+  go_CharsFrom e p = chars_from e p /\ go_CharsTo e p = chars_to e p.
+Proof. intros C e p. exact (conj (go_chars_from_eq e p) (go_chars_to_eq e p)). Qed.
+Print Assumptions C04_chars_from_to_are_the_source.
